@@ -93,6 +93,31 @@ pub struct Scenario {
     /// session ages in ms (clock hook), applied right after construction
     pub age_c: u64,
     pub age_s: u64,
+    /// a second activity on the same connection after the first one was stopped
+    #[serde(default)]
+    pub second: Option<Second>,
+}
+
+#[derive(Clone, Debug, Serialize, Deserialize)]
+pub struct Second {
+    pub publish: bool,
+    pub key: String,
+    pub media: Vec<Media>,
+}
+
+impl Scenario {
+    fn phases(&self) -> usize {
+        if self.second.is_some() { 2 } else { 1 }
+    }
+    fn publish_in(&self, phase: usize) -> bool {
+        if phase == 0 { self.publish } else { self.second.as_ref().map(|s| s.publish).unwrap_or(self.publish) }
+    }
+    fn key_in(&self, phase: usize) -> &str {
+        if phase == 0 { &self.key } else { self.second.as_ref().map(|s| s.key.as_str()).unwrap_or(&self.key) }
+    }
+    fn media_in(&self, phase: usize) -> &[Media] {
+        if phase == 0 { &self.media } else { self.second.as_ref().map(|s| &s.media[..]).unwrap_or(&[]) }
+    }
 }
 
 #[derive(Debug, Clone, PartialEq)]
@@ -119,21 +144,34 @@ fn got_brief(g: &Got) -> String {
     }
 }
 
+#[derive(Default)]
+struct Phase {
+    received: Vec<Got>,
+    request_accepted: u32,
+    finished: u32,
+    finished_ok: bool,
+    stream_requested: u32,
+    media_sent: bool,
+    stopped: bool,
+}
+
 struct World {
     client: ClientSession,
     server: ServerSession,
     c2s: VecDeque<u8>,
     s2c: VecDeque<u8>,
-    received: Vec<Got>,
     connect_accepted: u32,
-    request_accepted: u32,
-    finished: u32,
-    finished_ok: bool,
     conn_requested: u32,
-    stream_requested: u32,
-    media_sent: bool,
-    stopped: bool,
     expected_app: String,
+    phase: usize,
+    phases: Vec<Phase>,
+}
+
+impl World {
+    fn cur(&mut self) -> &mut Phase {
+        let i = self.phase;
+        &mut self.phases[i]
+    }
 }
 
 pub fn eval(sc: &Scenario) -> Verdict {
@@ -171,16 +209,11 @@ pub fn eval(sc: &Scenario) -> Verdict {
         server,
         c2s: VecDeque::new(),
         s2c: VecDeque::new(),
-        received: Vec::new(),
         connect_accepted: 0,
-        request_accepted: 0,
-        finished: 0,
-        finished_ok: false,
         conn_requested: 0,
-        stream_requested: 0,
-        media_sent: false,
-        stopped: false,
         expected_app,
+        phase: 0,
+        phases: (0..sc.phases()).map(|_| Phase::default()).collect(),
     };
     if let Err(e) = client_results(&mut w, sc, cinit) {
         return Verdict::Fail(e);
@@ -203,7 +236,8 @@ pub fn eval(sc: &Scenario) -> Verdict {
     let mut cut_in_flight = false;
     let drain = (sc.drain as usize).max(1);
     loop {
-        let goal = w.finished >= 1 && w.received.len() >= sc.media.len() && w.stopped;
+        let last = sc.phases() - 1;
+        let goal = w.phase == last && w.phases[last].finished >= 1 && w.phases[last].received.len() >= sc.media_in(last).len() && w.phases[last].stopped;
         if goal || (w.c2s.is_empty() && w.s2c.is_empty()) {
             break;
         }
@@ -223,7 +257,7 @@ pub fn eval(sc: &Scenario) -> Verdict {
         } else if !dir && w.s2c.is_empty() {
             dir = true;
         }
-        if last_dir.is_some() && last_dir != Some(dir) && w.media_sent && !w.stopped {
+        if last_dir.is_some() && last_dir != Some(dir) && w.phases[w.phase].media_sent && !w.phases[w.phase].stopped {
             switches += 1;
         }
         last_dir = Some(dir);
@@ -261,13 +295,17 @@ pub fn eval(sc: &Scenario) -> Verdict {
     // the joint history must be complete
     vensure!(w.conn_requested == 1, "server raised {} ConnectionRequested events", w.conn_requested);
     vensure!(w.connect_accepted == 1, "client raised {} ConnectionRequestAccepted events", w.connect_accepted);
-    vensure!(w.stream_requested == 1, "server raised {} publish/play request events", w.stream_requested);
-    vensure!(w.request_accepted == 1, "client raised {} publish/playback accepted events", w.request_accepted);
-    vensure!(w.received.len() == sc.media.len(), "{} of {} media items arrived: {:?}", w.received.len(), sc.media.len(), w.received.iter().map(got_brief).collect::<Vec<_>>());
-    for (i, (g, m)) in w.received.iter().zip(sc.media.iter()).enumerate() {
-        vensure!(got_matches(g, m), "media item {} arrived as {} but {:?} was sent", i, got_brief(g), m);
+    for (i, ph) in w.phases.iter().enumerate() {
+        let media = sc.media_in(i);
+        let what = if i == 0 { "first activity" } else { "second activity" };
+        vensure!(ph.stream_requested == 1, "{}: server raised {} publish/play request events", what, ph.stream_requested);
+        vensure!(ph.request_accepted == 1, "{}: client raised {} publish/playback accepted events", what, ph.request_accepted);
+        vensure!(ph.received.len() == media.len(), "{}: {} of {} media items arrived: {:?}", what, ph.received.len(), media.len(), ph.received.iter().map(got_brief).collect::<Vec<_>>());
+        for (k, (g, m)) in ph.received.iter().zip(media.iter()).enumerate() {
+            vensure!(got_matches(g, m), "{}: media item {} arrived as {} but {:?} was sent", what, k, got_brief(g), m);
+        }
+        vensure!(ph.finished == 1 && ph.finished_ok, "{}: server raised {} matching finished events after the stop", what, ph.finished);
     }
-    vensure!(w.finished == 1 && w.finished_ok, "server raised {} matching finished events after the stop", w.finished);
     let mut obs = Obs::new();
     obs.class(if sc.publish { "publish" } else { "play" });
     obs.class_if(cut_in_flight, "delivery-cuts-a-packet");
@@ -276,6 +314,7 @@ pub fn eval(sc: &Scenario) -> Verdict {
     obs.class_if(sc.c_chunk >= 0x7FFF_FFFE || sc.s_chunk >= 0x7FFF_FFFE, "chunk-size-max");
     obs.class_if(sc.c_window < 200 || sc.s_window < 200, "small-window");
     obs.class_if(sc.media.iter().any(|m| matches!(m, Media::Audio { len: 0, .. } | Media::Video { len: 0, .. })), "zero-length-media");
+    obs.class_if(sc.second.is_some(), "second-activity-on-the-same-connection");
     obs.class_if(sc.media.iter().any(|m| matches!(m, Media::Metadata(_))), "metadata");
     obs.class_if(switches >= 2, "direction-switches-while-media-in-flight");
     obs.class_if(sc.age_c > 0 || sc.age_s > 0, "aged-session");
@@ -287,7 +326,8 @@ pub fn eval(sc: &Scenario) -> Verdict {
 
 fn send_media_from_client(w: &mut World, sc: &Scenario) -> Result<(), String> {
     let mut results = Vec::new();
-    for (i, m) in sc.media.iter().enumerate() {
+    let phase = w.phase;
+    for (i, m) in sc.media_in(phase).iter().enumerate() {
         let r = match m {
             Media::Metadata(meta) => w.client.publish_metadata(&meta.to_lib()),
             Media::Audio { len, ts, drop, fill } => w.client.publish_audio_data(Bytes::from(fill_bytes(*fill, *len as usize)), RtmpTimestamp::new(*ts), *drop),
@@ -298,12 +338,12 @@ fn send_media_from_client(w: &mut World, sc: &Scenario) -> Result<(), String> {
             Err(e) => return Err(format!("client refused to publish media item {} ({:?}): {:?}", i, m, e)),
         }
     }
-    w.media_sent = true;
+    w.cur().media_sent = true;
     client_results(w, sc, results)?;
     // stop right behind the media: the deleteStream travels after it
     match w.client.stop_publishing() {
         Ok(r) => {
-            w.stopped = true;
+            w.cur().stopped = true;
             client_results(w, sc, r)
         }
         Err(e) => Err(format!("stop_publishing failed: {:?}", e)),
@@ -311,7 +351,8 @@ fn send_media_from_client(w: &mut World, sc: &Scenario) -> Result<(), String> {
 }
 
 fn send_media_from_server(w: &mut World, sc: &Scenario, stream_id: u32) -> Result<(), String> {
-    for (i, m) in sc.media.iter().enumerate() {
+    let phase = w.phase;
+    for (i, m) in sc.media_in(phase).iter().enumerate() {
         let r = match m {
             Media::Metadata(meta) => w.server.send_metadata(stream_id, &meta.to_lib()),
             Media::Audio { len, ts, drop, fill } => w.server.send_audio_data(stream_id, Bytes::from(fill_bytes(*fill, *len as usize)), RtmpTimestamp::new(*ts), *drop),
@@ -322,17 +363,46 @@ fn send_media_from_server(w: &mut World, sc: &Scenario, stream_id: u32) -> Resul
             Err(e) => return Err(format!("server refused to send media item {} ({:?}): {:?}", i, m, e)),
         }
     }
-    w.media_sent = true;
+    w.cur().media_sent = true;
     Ok(())
 }
 
 fn maybe_stop_playback(w: &mut World, sc: &Scenario) -> Result<(), String> {
-    if !sc.publish && !w.stopped && w.request_accepted >= 1 && w.received.len() >= sc.media.len() {
-        w.stopped = true;
+    let phase = w.phase;
+    if !sc.publish_in(phase) && !w.cur().stopped && w.cur().request_accepted >= 1 && w.cur().received.len() >= sc.media_in(phase).len() {
+        w.cur().stopped = true;
         match w.client.stop_playback() {
             Ok(r) => client_results(w, sc, r)?,
             Err(e) => return Err(format!("stop_playback failed: {:?}", e)),
         }
+    }
+    Ok(())
+}
+
+fn start_activity(w: &mut World, sc: &Scenario) -> Result<(), String> {
+    let phase = w.phase;
+    let key = sc.key_in(phase).to_string();
+    let r = if sc.publish_in(phase) {
+        let t = match sc.publish_type % 3 {
+            0 => PublishRequestType::Live,
+            1 => PublishRequestType::Record,
+            _ => PublishRequestType::Append,
+        };
+        w.client.request_publishing(key, t)
+    } else {
+        w.client.request_playback(key)
+    };
+    match r {
+        Ok(x) => client_results(w, sc, vec![x]),
+        Err(e) => Err(format!("request for activity {} failed: {:?}", phase + 1, e)),
+    }
+}
+
+/// Called when the server raised the finished event of the current activity.
+fn activity_finished(w: &mut World, sc: &Scenario) -> Result<(), String> {
+    if w.phase + 1 < sc.phases() && w.cur().stopped {
+        w.phase += 1;
+        start_activity(w, sc)?;
     }
     Ok(())
 }
@@ -347,51 +417,38 @@ fn client_results(w: &mut World, sc: &Scenario, results: Vec<ClientSessionResult
         match ev {
             ClientSessionEvent::ConnectionRequestAccepted => {
                 w.connect_accepted += 1;
-                let r = if sc.publish {
-                    let t = match sc.publish_type % 3 {
-                        0 => PublishRequestType::Live,
-                        1 => PublishRequestType::Record,
-                        _ => PublishRequestType::Append,
-                    };
-                    w.client.request_publishing(sc.key.clone(), t)
-                } else {
-                    w.client.request_playback(sc.key.clone())
-                };
-                match r {
-                    Ok(x) => client_results(w, sc, vec![x])?,
-                    Err(e) => return Err(format!("request after accepted connection failed: {:?}", e)),
-                }
+                start_activity(w, sc)?;
             }
             ClientSessionEvent::ConnectionRequestRejected { description } => return Err(format!("connection rejected although the server accepted: {}", description)),
             ClientSessionEvent::PublishRequestAccepted => {
-                if !sc.publish {
-                    return Err("PublishRequestAccepted in a play scenario".to_string());
+                if !sc.publish_in(w.phase) {
+                    return Err("PublishRequestAccepted in a play activity".to_string());
                 }
-                w.request_accepted += 1;
-                if w.request_accepted == 1 {
+                w.cur().request_accepted += 1;
+                if w.cur().request_accepted == 1 {
                     send_media_from_client(w, sc)?;
                 }
             }
             ClientSessionEvent::PlaybackRequestAccepted => {
-                if sc.publish {
-                    return Err("PlaybackRequestAccepted in a publish scenario".to_string());
+                if sc.publish_in(w.phase) {
+                    return Err("PlaybackRequestAccepted in a publish activity".to_string());
                 }
-                w.request_accepted += 1;
+                w.cur().request_accepted += 1;
                 maybe_stop_playback(w, sc)?;
             }
             ClientSessionEvent::StreamMetadataReceived { metadata } => {
-                if sc.publish {
-                    return Err("client received metadata in a publish scenario".to_string());
+                if sc.publish_in(w.phase) {
+                    return Err("client received metadata in a publish activity".to_string());
                 }
-                w.received.push(Got::Metadata(metadata));
+                w.cur().received.push(Got::Metadata(metadata));
                 maybe_stop_playback(w, sc)?;
             }
             ClientSessionEvent::AudioDataReceived { data, timestamp } => {
-                w.received.push(Got::Audio(data.to_vec(), timestamp.value));
+                w.cur().received.push(Got::Audio(data.to_vec(), timestamp.value));
                 maybe_stop_playback(w, sc)?;
             }
             ClientSessionEvent::VideoDataReceived { data, timestamp } => {
-                w.received.push(Got::Video(data.to_vec(), timestamp.value));
+                w.cur().received.push(Got::Video(data.to_vec(), timestamp.value));
                 maybe_stop_playback(w, sc)?;
             }
             _ => {}
@@ -418,14 +475,14 @@ fn server_results(w: &mut World, sc: &Scenario, results: Vec<ServerSessionResult
                 }
             }
             ServerSessionEvent::PublishStreamRequested { request_id, app_name, stream_key, mode } => {
-                w.stream_requested += 1;
+                w.cur().stream_requested += 1;
                 let want_mode = match sc.publish_type % 3 {
                     0 => PublishMode::Live,
                     1 => PublishMode::Record,
                     _ => PublishMode::Append,
                 };
-                if !sc.publish || app_name != w.expected_app || stream_key != sc.key || mode != want_mode {
-                    return Err(format!("publish request surfaced as app={:?} key={:?} mode={:?}; expected app={:?} key={:?} mode={:?}", app_name, stream_key, mode, w.expected_app, sc.key, want_mode));
+                if !sc.publish_in(w.phase) || app_name != w.expected_app || stream_key != sc.key_in(w.phase) || mode != want_mode {
+                    return Err(format!("publish request surfaced as app={:?} key={:?} mode={:?}; expected app={:?} key={:?} mode={:?}", app_name, stream_key, mode, w.expected_app, sc.key_in(w.phase), want_mode));
                 }
                 match w.server.accept_request(request_id) {
                     Ok(r) => server_results(w, sc, r)?,
@@ -433,9 +490,9 @@ fn server_results(w: &mut World, sc: &Scenario, results: Vec<ServerSessionResult
                 }
             }
             ServerSessionEvent::PlayStreamRequested { request_id, app_name, stream_key, stream_id, .. } => {
-                w.stream_requested += 1;
-                if sc.publish || app_name != w.expected_app || stream_key != sc.key {
-                    return Err(format!("play request surfaced as app={:?} key={:?}; expected app={:?} key={:?}", app_name, stream_key, w.expected_app, sc.key));
+                w.cur().stream_requested += 1;
+                if sc.publish_in(w.phase) || app_name != w.expected_app || stream_key != sc.key_in(w.phase) {
+                    return Err(format!("play request surfaced as app={:?} key={:?}; expected app={:?} key={:?}", app_name, stream_key, w.expected_app, sc.key_in(w.phase)));
                 }
                 match w.server.accept_request(request_id) {
                     Ok(r) => server_results(w, sc, r)?,
@@ -444,30 +501,34 @@ fn server_results(w: &mut World, sc: &Scenario, results: Vec<ServerSessionResult
                 send_media_from_server(w, sc, stream_id)?;
             }
             ServerSessionEvent::StreamMetadataChanged { app_name, stream_key, metadata } => {
-                if app_name != w.expected_app || stream_key != sc.key {
+                if app_name != w.expected_app || stream_key != sc.key_in(w.phase) {
                     return Err(format!("metadata tagged {:?}/{:?}", app_name, stream_key));
                 }
-                w.received.push(Got::Metadata(metadata));
+                w.cur().received.push(Got::Metadata(metadata));
             }
             ServerSessionEvent::AudioDataReceived { app_name, stream_key, data, timestamp } => {
-                if app_name != w.expected_app || stream_key != sc.key {
+                if app_name != w.expected_app || stream_key != sc.key_in(w.phase) {
                     return Err(format!("audio tagged {:?}/{:?}", app_name, stream_key));
                 }
-                w.received.push(Got::Audio(data.to_vec(), timestamp.value));
+                w.cur().received.push(Got::Audio(data.to_vec(), timestamp.value));
             }
             ServerSessionEvent::VideoDataReceived { app_name, stream_key, data, timestamp } => {
-                if app_name != w.expected_app || stream_key != sc.key {
+                if app_name != w.expected_app || stream_key != sc.key_in(w.phase) {
                     return Err(format!("video tagged {:?}/{:?}", app_name, stream_key));
                 }
-                w.received.push(Got::Video(data.to_vec(), timestamp.value));
+                w.cur().received.push(Got::Video(data.to_vec(), timestamp.value));
             }
             ServerSessionEvent::PublishStreamFinished { app_name, stream_key } => {
-                w.finished += 1;
-                w.finished_ok = sc.publish && app_name == w.expected_app && stream_key == sc.key;
+                let ok = sc.publish_in(w.phase) && app_name == w.expected_app && stream_key == sc.key_in(w.phase);
+                w.cur().finished += 1;
+                w.cur().finished_ok = ok;
+                activity_finished(w, sc)?;
             }
             ServerSessionEvent::PlayStreamFinished { app_name, stream_key } => {
-                w.finished += 1;
-                w.finished_ok = !sc.publish && app_name == w.expected_app && stream_key == sc.key;
+                let ok = !sc.publish_in(w.phase) && app_name == w.expected_app && stream_key == sc.key_in(w.phase);
+                w.cur().finished += 1;
+                w.cur().finished_ok = ok;
+                activity_finished(w, sc)?;
             }
             _ => {}
         }
@@ -520,9 +581,10 @@ pub fn scenario(thorough: bool) -> BoxedStrategy<Scenario> {
                 proptest::collection::vec((any::<bool>(), prop_oneof![3 => 1u16..20, 3 => 1u16..300, 1 => 300u16..5000]), 0..80),
                 prop_oneof![Just(1u16), 2u16..50, 50u16..5000],
                 (age(), age()),
+                proptest::option::weighted(0.35, (any::<bool>(), "[a-zA-Z0-9_-]{1,12}", proptest::collection::vec(media(c_chunk, s_chunk, cap.min(5000)), 0..6)).prop_map(|(publish, key, media)| Second { publish, key, media })),
             )
         })
-        .prop_map(|((c_chunk, s_chunk, c_window, s_window), (publish, app, key, publish_type), (c_buffer, tc_url, s_bandwidth, s_bwdone), media, schedule, drain, (age_c, age_s))| Scenario {
+        .prop_map(|((c_chunk, s_chunk, c_window, s_window), (publish, app, key, publish_type), (c_buffer, tc_url, s_bandwidth, s_bwdone), media, schedule, drain, (age_c, age_s), second)| Scenario {
             publish,
             app,
             key,
@@ -540,6 +602,7 @@ pub fn scenario(thorough: bool) -> BoxedStrategy<Scenario> {
             drain,
             age_c,
             age_s,
+            second,
         })
         .boxed()
 }
